@@ -623,13 +623,8 @@ func (d *driver) cfgEvent(sc *Scenario) map[string]any {
 		for _, s := range f.Scopes {
 			scopes = append(scopes, s)
 		}
+		// (whether the endpoint's own query is retained is judged on the raw components of the Location: ownRetained)
 		ownQ := map[string]any{}
-		if f.AuthzQuery != "" && !f.Discovery {
-			q, _ := url.ParseQuery(f.AuthzQuery)
-			for k, v := range q {
-				ownQ[k] = strs(v)
-			}
-		}
 		idp := f.IdpID
 		if idp == "" {
 			idp = "A"
@@ -1084,7 +1079,7 @@ func (d *driver) finishCheck(c *checkRun) {
 	e := d.env
 	f := e.fspec[c.f]
 	ev := map[string]any{"ev": "resp", "n": c.n, "c": c.id, "f": c.f, "b": c.b, "expect": c.expect}
-	none := map[string]any{"ex": false, "kind": "none", "raw": "", "params": map[string]any{}, "sym": "none", "parseOK": true, "fragment": false}
+	none := map[string]any{"ex": false, "kind": "none", "raw": "", "params": map[string]any{}, "sym": "none", "parseOK": true, "fragment": false, "ownRetained": true}
 	ev["loc"], ev["setCookie"], ev["upstream"], ev["okExtra"], ev["leaks"] = none, []any{}, []any{}, []any{}, []any{}
 	ev["code"], ev["http"], ev["noCache"], ev["body"], ev["wellFormed"] = -1, 0, false, "none", true
 	switch {
@@ -1293,7 +1288,7 @@ func contains(l []string, s string) bool {
 
 // describeLocation parses a Location with net/url, independently of how the service assembled it.
 func (d *driver) describeLocation(f *FilterSpec, v string) map[string]any {
-	out := map[string]any{"ex": true, "kind": "other", "raw": "", "params": map[string]any{}, "sym": "none", "parseOK": true, "fragment": false}
+	out := map[string]any{"ex": true, "kind": "other", "raw": "", "params": map[string]any{}, "sym": "none", "parseOK": true, "fragment": false, "ownRetained": true}
 	if s := d.symURL(v); !strings.HasPrefix(s, "rawurl:") {
 		out["kind"], out["sym"] = "url", s
 		return out
@@ -1311,7 +1306,11 @@ func (d *driver) describeLocation(f *FilterSpec, v string) map[string]any {
 	au, _ := url.Parse(d.authzEndpoint(f))
 	if u.Scheme == au.Scheme && u.Host == au.Host && u.Path == au.Path {
 		out["kind"] = "authorize"
-		q, qerr := url.ParseQuery(u.RawQuery)
+		// the endpoint's own query is retained when every one of its '&'-separated components is still there, as written
+		// (or written in an equivalent percent-encoding); what remains must be exactly the parameters of the request
+		rest, retained := removeOwnQuery(u.RawQuery, ifs(f.Discovery, "", f.AuthzQuery))
+		out["ownRetained"] = retained
+		q, qerr := url.ParseQuery(rest)
 		out["parseOK"] = qerr == nil
 		params := map[string]any{}
 		for k, vals := range q {
@@ -1422,4 +1421,36 @@ func quietLogger() telemetry.Logger {
 	l := tlog.New() // (keeps the writer it finds in os.Stdout now)
 	os.Stdout = saved
 	return l
+}
+
+
+// removeOwnQuery takes the components of the endpoint's own query out of a raw query (each once) and says whether all were found.
+func removeOwnQuery(raw, own string) (string, bool) {
+	comps := []string{}
+	if raw != "" {
+		comps = strings.Split(raw, "&")
+	}
+	all := true
+	if own != "" {
+		for _, want := range strings.Split(own, "&") {
+			found := false
+			for i, c := range comps {
+				same := c == want
+				if !same {
+					if a, err1 := url.QueryUnescape(c); err1 == nil {
+						if b, err2 := url.QueryUnescape(want); err2 == nil && a == b {
+							same = true
+						}
+					}
+				}
+				if same {
+					comps = append(comps[:i], comps[i+1:]...)
+					found = true
+					break
+				}
+			}
+			all = all && found
+		}
+	}
+	return strings.Join(comps, "&"), all
 }
